@@ -462,7 +462,38 @@ def all_strings(alpha, n):
             yield s + bytes([a])
 
 
+def prefill_triggers(ops):
+    """One batched driver run evaluates the Lean trigger for every generated buffer that the
+    Python decoders classify as non-canonical (instead of one process per buffer in known())."""
+    import vlib
+    toks = []
+    for op in ops:
+        w = op.split()
+        if w[0] == "V" and w[1] not in _trigger_cache:
+            m = unhx(w[1])
+            if m[:1] == b"/" and decode(m, True) is None and decode(m, False) is not None:
+                toks.append(w[1])
+    if not toks or not os.path.exists(vlib.driver_path(ENGINE)):
+        return
+    try:
+        r = subprocess.run([vlib.driver_path(ENGINE)], input="".join("T %s\n" % t for t in toks),
+                           stdout=subprocess.PIPE, stderr=subprocess.PIPE, text=True, timeout=600)
+        outs = r.stdout.split("\n")
+        if r.returncode == 0 and len(outs) >= len(toks):
+            for t, o in zip(toks, outs):
+                _trigger_cache[t] = o.split()[:1] == ["nc=1"]
+    except Exception:
+        pass
+
+
 def generate(rng, tier, stats):
+    ops = list(_generate(rng, tier, stats))
+    prefill_triggers(ops)
+    for op in ops:
+        yield op
+
+
+def _generate(rng, tier, stats):
     quick = tier == "quick"
     stats.update({"exhaustive_le4": 0, "tails": 0, "tails_exhaustive": not quick, "canonical": 0, "mutations": {},
                   "random": 0, "bundles": 0, "size_hist": {}, "tag_count": {}, "strict_ok": 0, "lax_only": 0})
@@ -496,7 +527,7 @@ def generate(rng, tier, stats):
         for s in all_strings(ALPHA6, 7):
             stats["tails"] += 1
             yield emit("tail", pre + s)
-        for _ in range(200000):
+        for _ in range(100000):
             stats["tails"] += 1
             yield emit("tail", pre + bytes(rng.choice(ALPHA6) for _ in range(11)))
     # 3. canonical messages and their mutations
@@ -510,7 +541,7 @@ def generate(rng, tier, stats):
             for k, x in mutate(rng, m, marks, stats):
                 stats["mutations"][k] = stats["mutations"].get(k, 0) + 1
                 yield emit(k, x)
-    for _ in range(700 if quick else 30000):
+    for _ in range(700 if quick else 9000):
         m, marks = make_msg(rng)
         for t in m[marks[2][1]:marks[2][2]]:
             stats["tag_count"][chr(t)] = stats["tag_count"].get(chr(t), 0) + 1
